@@ -574,12 +574,13 @@ fn resolve_op(op: &Op, own: Option<SysUid>) -> (Resolved, Action)
                         let Some(cmd) = sys_entity(case, uid) else {
                             return (Resolved::Skipped(SkipReason::NoToken), Action::Nothing);
                         };
-                        // duplicate rule: a key is registered at most once per reactor (until revoked)
+                        // duplicate rule: a key is not registered again by a later call for the same reactor
+                        // (until revoked); the same key twice inside ONE bundle is allowed
                         let mut keys = Vec::new();
-                        let normalised: Vec<Key> = bundle.iter().map(|k| normalise_key(case, *k)).collect();
+                        let normalised: Vec<Key> = bundle.iter().take(6).map(|k| normalise_key(case, *k)).collect();
                         for k in normalised
                         {
-                            if keys.contains(&k) || case.issued.contains(&(uid, k))
+                            if case.issued.contains(&(uid, k))
                             {
                                 *case.skipped.entry(SkipReason::DuplicateKey).or_default() += 1;
                                 continue;
@@ -606,9 +607,8 @@ fn resolve_op(op: &Op, own: Option<SysUid>) -> (Resolved, Action)
                         // (the reactor becomes visible to other ops when its registration is applied)
                         let uid = case.add_system(def.clone(), None, None, Some(t as u8));
                         let mut keys = Vec::new();
-                        for k in bundle.iter().map(|k| normalise_key(case, *k))
+                        for k in bundle.iter().take(6).map(|k| normalise_key(case, *k))
                         {
-                            if keys.contains(&k) { continue; }
                             keys.push(k);
                         }
                         for k in keys.iter() { case.issued.insert((uid, *k)); }
